@@ -136,6 +136,19 @@ mutant("c19-id-keyed-registry", "C19", r"(use-differs|build-differs|sweep-differ
          "    if converter is None:\n        converter = cattrs.Converter()\n    if id(converter) in _REGISTERED:\n        return converter\n    _REGISTERED.add(id(converter))\n    return _hooks.register_hooks(converter)\n\n\n_REGISTERED = set()")])
 
 
+mutant("c19-lock-order-deadlock", "C19", r"deadlock",
+       [("packages/python/lsprotocol/converters.py", "from . import _hooks\n", "import threading\n\nfrom . import _hooks\n\n_A = threading.Lock()\n_B = threading.Lock()\n"),
+        ("packages/python/lsprotocol/converters.py",
+         "    if converter is None:\n        converter = cattrs.Converter()\n    return _hooks.register_hooks(converter)",
+         "    if converter is None:\n        with _A:\n            with _B:\n                return _hooks.register_hooks(cattrs.Converter())\n    with _B:\n        with _A:\n            return _hooks.register_hooks(converter)")])
+mutant("c19-event-set-only-on-first-path", "C19", r"deadlock",
+       [("packages/python/lsprotocol/_hooks.py", "# Flag to ensure we only resolve forward references once.\n_resolved_forward_references = False\n",
+         "import threading\n\n# Flag to ensure we only resolve forward references once.\n_resolved_forward_references = False\n_resolving = False\n_resolved_event = threading.Event()\n"),
+        ("packages/python/lsprotocol/_hooks.py", "    global _resolved_forward_references\n    if not _resolved_forward_references:\n",
+         "    global _resolved_forward_references, _resolving\n    if _resolving and not _resolved_forward_references:\n        _resolved_event.wait()\n        return\n    if not _resolved_forward_references:\n        _resolving = True\n"),
+       ])
+
+
 def apply_edits(root: pathlib.Path, edits: List[Tuple[str, str, str]]) -> None:
     for rel, old, new in edits:
         p = root / rel
